@@ -248,6 +248,11 @@ func (c *Ctx) Violation(findingID, key, what string, witness any) {
 	if n > 25 {
 		return // enough witnesses
 	}
+	if c.Replay != "" {
+		fmt.Printf("VIOLATION property=%s replay=%s\n", c.ID, c.Replay)
+		fmt.Printf("  what: %s\n", truncate(what, 2000))
+		return
+	}
 	dir := filepath.Join(Root(), "replay")
 	_ = os.MkdirAll(dir, 0o755)
 	path := filepath.Join(dir, fmt.Sprintf("%s-%s-seed%d-%d.json", c.ID, c.Tier, c.Seed, n))
